@@ -88,10 +88,17 @@ def switched_off(on):
         lr = inst.parser
         return ([(pr.name, tuple(getattr(pr, 'prod', ())), pr.func if isinstance(pr.func, str) else getattr(pr.func, '__name__', None))
                  for pr in lr.productions], {st: dict(a) for st, a in lr.action.items()}, {st: dict(g) for st, g in lr.goto.items()})
+    import ply.yacc
+
+    def built(kw):
+        try:
+            return table(parserFactory(**kw)())
+        except ply.yacc.YaccError:
+            return 'no parser can be built from this grammar'        # (some single options need another one: not this check's business)
     try:
-        a, b = table(parserFactory(**plain)()), table(parserFactory(**full)())
+        a, b = built(plain), built(full)
         if a != b:
-            extra = sorted(set(b[0]) - set(a[0]))[:3]
+            extra = sorted(set(b[0]) - set(a[0]))[:3] if isinstance(a, tuple) and isinstance(b, tuple) else [str(a)[:60], str(b)[:60]]
             diffs.append('parserFactory: grammar differs (productions only with the false options: %r)' % (extra,))
     except BaseException as e:
         diffs.append('parserFactory raised %s: %s' % (type(e).__name__, e))
